@@ -171,3 +171,60 @@ def c03_control(e):
     if not terminal:
         return which not in out and not dec.controls
     return which in out
+
+
+# --- all 2^13 attribute masks (S over the masks: symx BitVec; the emitted parameter list is concrete per path) ---------
+from vf.symx import SymInt  # noqa: E402
+
+
+@symx("C03-all-attribute-masks", timeout=2400, kind="S", opts={"bv": 16}, tiers=("thorough",), functions=["rich/style.py:Style._make_ansi_codes", "rich/style.py:Style.render"],
+      bounds="EVERY combination of the 13 attributes: _attributes and _set_attributes are symbolic 13-bit masks (any attributes "
+             "value, also bits that are not set); Style.render branches on them and on each of its 8192 x (set-mask classes) paths "
+             "the emitted SGR parameter list is exactly the codes of the attributes that are set and on, in ascending bit order, "
+             "and no others; a style with nothing on renders the text bare",
+      stubs=["the Style is built with Style.__new__ and its slots set directly (any mask pair, not only those __init__ produces)"])
+def c03_masks(e):
+    attrs = e.mk("attributes", 0, 0x1FFF)
+    sets = e.mk("set_attributes", 0, 0x1FFF)
+    st = Style.__new__(Style)
+    st._ansi = None
+    st._style_definition = None
+    st._color = None
+    st._bgcolor = None
+    st._attributes = attrs
+    st._set_attributes = sets
+    st._link = None
+    st._link_id = ""
+    st._hash = 0
+    st._null = False
+    out = st.render("x", color_system=ColorSystem.TRUECOLOR)
+    codes = ["1", "2", "3", "4", "5", "6", "7", "8", "9", "21", "51", "52", "53"]
+    # on this path every bit Style.render looked at is decided: read the effective mask back from the model
+    eff = attrs & sets
+    want = []
+    ok = True
+    for bit in range(13):
+        on = (eff >> bit) & 1
+        if isinstance(on, SymInt):
+            on = 1 if (on == 1) else 0          # forks only if render did not already decide this bit
+        if on:
+            want.append(codes[bit])
+    expect = ("\x1b[" + ";".join(want) + "mx\x1b[0m") if want else "x"
+    return out == expect
+
+
+@symx("C03-same-style-object-reused", timeout=900, kind="P", functions=F_R + ["rich/style.py:Style.without_color"],
+      bounds="one Style object (<=1 attribute, fg/bg from the representatives, link) printed first on a colour console and then on a "
+             "NO_COLOR console of the same colour system, and in the reverse order: the second stream is as specified whatever the "
+             "object rendered before (cached SGR strings must not leak colour into a no-colour stream)",
+      outside="the same Style object on consoles of DIFFERENT colour systems (the per-style _ansi memo is not keyed by the system; "
+              "upstream behaviour)")
+def c03_reuse(e):
+    style = mk_style(e, False)
+    system = ["standard", "256", "truecolor", "windows"][int(e.mk("system", 0, 3))]
+    first_nocolor = bool(e.mkbool("no_color_first"))
+    segs = [Segment("a", style), Segment("b")]
+    for no_color in ((True, False) if first_nocolor else (False, True)):
+        if not check_stream(segs, system, no_color, True, False):
+            return False
+    return True
